@@ -27,6 +27,10 @@ SCALARS = {
 }
 
 CLASSES = {
+    'std::string_view': ('sv_t', 'sv'),
+    'std::string': ('str_t', 'str'),
+    'std::u32string_view': ('u32sv_t', 'u32sv'),
+    'std::u32string': ('u32str_t', 'u32str'),
     'std::basic_string_view<char>': ('sv_t', 'sv'),
     'std::basic_string<char>': ('str_t', 'str'),
     'std::basic_string_view<char32_t>': ('u32sv_t', 'u32sv'),
@@ -123,6 +127,12 @@ def map_type(q):
     if am:
         it = map_type(am.group(1))
         return CType(it.c, it.klass, '[%s]' % am.group(2) + it.arr, ref, 0, it)
+    m = re.match(r'^std::basic_string(_view)?<(char|char32_t)>::(value_type|size_type|difference_type)$', base)
+    if m:
+        base = {'value_type': m.group(2), 'size_type': 'unsigned long', 'difference_type': 'long'}[m.group(3)]
+    m = re.match(r'^std::array<(.*), \d+>::value_type$', base)
+    if m:
+        base = strip_cv(m.group(1))
     if base in SCALARS:
         return CType(SCALARS[base], None, '', ref)
     if base in ENUMS:
